@@ -64,9 +64,12 @@ TOP = {
     "c_gen_bound_tuple": ("class C{u}(Generic[TCB]):\n    x{u}: int = 1\n\n    def m{u}(self, a: int) -> int:\n        return a\n", [("class", "C{u}", ["tuple"]), ("attr", "x{u}", []), ("fun", "m{u}", [])]),
     "c_gen_constr_set": ("class C{u}(Generic[TCS]):\n    def m{u}(self, a: int) -> int:\n        return a\n", [("class", "C{u}", ["set"]), ("fun", "m{u}", [])]),
     "c_gen_bound_tuple_empty": ("class C{u}(Generic[TCB]):\n    pass\n", [("class", "C{u}", ["tuple"])]),
+    # an invariant class type variable whose BOUND is a tuple: the class shows '<TIB>' only, its methods show nothing of it
+    "c_gen_invariant_bound_tuple": ("class C{u}(Generic[TIB]):\n    def m{u}(self, a: TIB) -> int:\n        return 1\n\n    def n{u}(self, b: int) -> int:\n        return b\n", [("class", "C{u}", []), ("fun", "m{u}", []), ("fun", "n{u}", [])]),
+    "f_typevar_bound_tuple": ("def f{u}(a: TIB) -> int:\n    return 1\n", [("fun", "f{u}", ["tuple"])]),
     "e_enum": ("class E{u}(Enum):\n    A{u} = 1\n", [("enum", "E{u}", [])]),
 }
-HEADER = "from enum import Enum\nfrom typing import Generic, TypeVar\n\nTCB = TypeVar(\"TCB\", covariant=True, bound=tuple[int, str])\nTCS = TypeVar(\"TCS\", set[int], int)\nTG = TypeVar(\"TG\")\n\n\nclass GenBase(Generic[TG]):\n    pass\n\n\ndef untyped_call():\n    return object()\n\n\nclass BaseA:\n    pass\n\n\nclass BaseB:\n    pass\n\n\n"
+HEADER = "from enum import Enum\nfrom typing import Generic, TypeVar\n\nTCB = TypeVar(\"TCB\", covariant=True, bound=tuple[int, str])\nTCS = TypeVar(\"TCS\", set[int], int)\nTG = TypeVar(\"TG\")\nTIB = TypeVar(\"TIB\", bound=tuple[int, str])\n\n\nclass GenBase(Generic[TG]):\n    pass\n\n\ndef untyped_call():\n    return object()\n\n\nclass BaseA:\n    pass\n\n\nclass BaseB:\n    pass\n\n\n"
 
 # members inside one class body: name -> (source template indented by 4, [(kind, name, markers)])
 MEMBERS = {
